@@ -351,6 +351,10 @@ def check(run):
     run.rule("R16.5", "window_shape, step and dilation entries are validated strictly positive before use", floor=3)
     run.rule("R16.6", "running max/min accumulators in nnet code start from the identity, not a constant buffer", floor=1)
     run.rule("R16.7", "nnet forward passes do not narrow operands to a sibling operand's dtype", floor=1)
+    run.rule("R16.8", "nnet code: a parameter inspected with isinstance is still used when it is of none of the tested types", floor=20)
+    from .util import type_narrowed_dead_params
+    n = type_narrowed_dead_params(run, "R16.8", [f for f in run.project.all_functions() if f.module.name.startswith("mygrad.nnet")])
+    run.count("type-tested parameters (nnet)", n)
     r16_6(run)
     r16_7(run)
     r16_1(run)
